@@ -39,7 +39,7 @@ func main() {
 		Setup:            func(c *engine.Ctx) { elkrun.Init() },
 		Run:              run,
 		CaseTimeout:      120 * time.Second,
-		QuickDeadline:    6 * time.Minute,
+		QuickDeadline:    12 * time.Minute,
 		ThoroughDeadline: 40 * time.Minute,
 	})
 }
